@@ -45,7 +45,7 @@ BUDGET = {'quick': 240, 'thorough': 1500}
 
 def shards(tier):
     q = tier == 'quick'
-    out = [{'kind': 'sim', 'n': 500 if q else 25000} for _ in range(12)]
+    out = [{'kind': 'sim', 'n': 1200 if q else 25000} for _ in range(12)]
     out += [{'kind': 'real', 'n': 20 if q else 400} for _ in range(4)]
     return out
 
